@@ -118,11 +118,26 @@ class FunctionTranslator:
             if len(node.generators) != 1 or node.generators[0].is_async:
                 self.fail(node, 'comprehension shape')
             g = node.generators[0]
-            if not isinstance(g.target, ast.Name) or not isinstance(node.elt, ast.Name) or node.elt.id != g.target.id:
-                self.fail(node, 'only [x for x in xs if c] is supported')
+            if not isinstance(g.target, ast.Name):
+                self.fail(node, 'comprehension target must be a name')
             ik, it = self.expr(g.iter)
             if ik != 'pure':
                 self.fail(g.iter, 'iterable must be pure')
+            if not isinstance(node.elt, ast.Name) or node.elt.id != g.target.id:
+                # [e(x) for x in xs]: map / mapM of the element expression (a leaf that mentions x), evaluated
+                # left to right; the first exception ends it
+                if g.ifs:
+                    self.fail(node, 'a mapped comprehension with `if` is outside the subset')
+                self.bound.add(g.target.id)
+                try:
+                    ek, et = self.expr(node.elt)
+                finally:
+                    self.bound.discard(g.target.id)
+                if ek == 'pure':
+                    return 'pure', '(map (fun %s => %s) %s)' % (g.target.id, et, it)
+                if ek == 'res':
+                    return 'res', '(mapM (fun %s => %s) %s)' % (g.target.id, et, it)
+                self.fail(node.elt, 'element of a comprehension must be a value')
             self.bound.add(g.target.id)
             try:
                 conds = [self.cond(c) for c in g.ifs]
@@ -409,19 +424,23 @@ def translate_module(repo, mod, header):
     src = open(path).read()
     tree = ast.parse(src)
     out = [header % {'path': mod['path'], 'imports': mod.get('imports', '')}, mod.get('prelude', '')]
+    ftrees = {mod['path']: tree}
     for sch in mod['functions']:
         if 'coq' in sch:                      # hand-written glue between two translated functions, emitted verbatim
             out.append(sch['coq'])
             continue
+        fpath = sch.get('path', mod['path'])  # a module may gather functions of several source files
+        if fpath not in ftrees:
+            ftrees[fpath] = ast.parse(open(os.path.join(repo, fpath)).read())
         try:
-            f = find_function(tree, sch['qualname'])
+            f = find_function(ftrees[fpath], sch['qualname'])
         except KeyError:
-            raise Unsupported(tree, 'function %s not found' % sch['qualname'], mod['path'])
-        text, unused = FunctionTranslator(mod['path'], f, sch).translate()
+            raise Unsupported(ftrees[fpath], 'function %s not found' % sch['qualname'], fpath)
+        text, unused = FunctionTranslator(fpath, f, sch).translate()
         if unused:
             raise Unsupported(f, 'leaf-table entries that no longer occur in %s: %r' % (sch['qualname'], unused[:3]),
-                              mod['path'])
-        out.append('(* translated from %s : %s *)' % (mod['path'], sch['qualname']))
+                              fpath)
+        out.append('(* translated from %s : %s *)' % (fpath, sch['qualname']))
         out.append(text)
         out.append('')
     out.append(mod.get('epilogue', ''))
